@@ -1,5 +1,6 @@
 import PMV.Model.Dispatch
 import PMV.Lemmas.Bcast
+import PMV.Lemmas.DispatchRules
 /-
   C04 — unmasked results equal the NumPy reference; only leading axes broadcast.
   Property theorems about the code-shaped model `PMV.Dispatch` (the definitions the driver executes).
@@ -10,15 +11,6 @@ namespace PMV.Dispatch
 open PMV
 
 /-! ### the alignment step is a reshape by trailing / inner unit axes -/
-
-theorem insOnes_end (s : Shape) (r : Nat) : insOnes s s.length r = s ++ List.replicate r 1 := by
-  simp [insOnes]
-
-theorem insOnes_zero (s : Shape) (p : Nat) : insOnes s p 0 = s := by
-  simp [insOnes]
-
-theorem insOnes_mid (s d : Shape) (r : Nat) : insOnes (s ++ d) s.length r = s ++ List.replicate r 1 ++ d := by
-  simp [insOnes]
 
 theorem take_drop_mid (a b c : List Nat) (p r : Nat) (hp : p = a.length) (hr : r = b.length) :
     (a ++ b ++ c).take p ++ (a ++ b ++ c).drop (p + r) = a ++ c := by
@@ -193,67 +185,6 @@ theorem finish_spec (c : Cls) (k : Kind) (l n d : Shape) (u : Bool) (p : Plan) :
       else .ok { cls := c, kind := suitableDtype c k, lead := l, numer := n, denom := d, plan := p } := by
   unfold finish; split <;> rfl
 
-/-- **shape_rule / class_rule / kind_rule / reject_iff for `X._mul_by_scalar(S)`** (S has no numerator axes, at most
-    one of the two has a denominator): the code-shaped function — which broadcasts the ALIGNED FULL shapes — is
-    rejected with ValueError iff the LEADING shapes do not broadcast, with TypeError iff the class cannot hold the
-    units, and otherwise yields an object of X's class ("scaling an X by a Scalar gives an X") whose leading shape is
-    the NumPy broadcast of the leading shapes, whose numerator is X's and whose denominator is whichever exists. -/
--- FULL: the same equality without `hne : s.full ≠ []` and `hxne : x.full ≠ []` (the branches where the code skips the
--- reshape because a value is a Python scalar of shape ()), and with a denominator on X instead of S.
-theorem mulByScalar_rule_partial (x s : Desc) (swap : Bool) (hs : s.numer = []) (hx : x.denom = []) (hne : s.full ≠ [])
-    (hxne : x.full ≠ []) :
-    mulByScalar x s swap =
-      match bcast x.shape s.shape with
-      | none => .error .valueError
-      | some out =>
-        if unitsPresent x.units s.units && !x.cls.unitsOk then .error .typeError
-        else .ok { cls := x.cls, kind := suitableDtype x.cls (promote x.kind s.kind), lead := out,
-                   numer := x.numer, denom := s.denom,
-                   plan := if swap then .ew true s.shape.length x.rank x.full.length (if s.drank > 0 then s.drank else 0)
-                           else .ew false x.full.length (if s.drank > 0 then s.drank else 0) s.shape.length x.rank } := by
-  have hxf : x.full = x.shape ++ x.numer := by simp [Desc.full, hx]
-  have hsf : s.full = s.shape ++ s.denom := by simp [Desc.full, hs]
-  have hxr : x.rank = x.numer.length := by simp [Desc.rank, hx]
-  have hX : insOnes x.full x.full.length (if s.drank > 0 ∧ x.full ≠ [] then s.drank else 0)
-      = x.shape ++ (x.numer ++ List.replicate s.denom.length 1) := by
-    rw [insOnes_end, hxf]
-    by_cases hd : s.drank > 0
-    · simp [hxf ▸ hxne, Desc.drank]
-      intro h; simp [h]
-    · have : s.denom = [] := by
-        simp [Desc.drank] at hd; exact hd
-      simp [this, Desc.drank]
-  have hS : insOnes s.full s.shape.length (if s.full ≠ [] then x.rank else 0)
-      = s.shape ++ (List.replicate x.numer.length 1 ++ s.denom) := by
-    rw [if_pos hne, hsf, insOnes_mid, hxr, List.append_assoc]
-  have hitem : bcast (x.numer ++ List.replicate s.denom.length 1) (List.replicate x.numer.length 1 ++ s.denom)
-      = some (x.numer ++ s.denom) := by
-    have := bcast_append x.numer (List.replicate x.numer.length 1) (List.replicate s.denom.length 1) s.denom (by simp)
-    rw [bcast_ones_right, bcast_ones_left] at this
-    exact this
-  have hb := bcast_append x.shape s.shape (x.numer ++ List.replicate s.denom.length 1)
-    (List.replicate x.numer.length 1 ++ s.denom) (by simp only [List.length_append, List.length_replicate])
-  rw [hitem] at hb
-  unfold mulByScalar
-  simp only [decide_eq_true_eq, Bool.and_eq_true, bne_iff_ne, ne_eq, Bool.decide_and] at *
-  simp only [hX, hS, hb]
-  cases h : bcast x.shape s.shape with
-  | none => rfl
-  | some out =>
-    have hmax : max x.drank s.drank = s.denom.length := by simp [Desc.drank, hx]
-    have hl1 : (out ++ (x.numer ++ s.denom)).length - (x.nrankV + s.denom.length) = out.length := by
-      simp [Desc.nrankV]
-    have hl2 : (out ++ (x.numer ++ s.denom)).length - s.denom.length = out.length + x.numer.length := by
-      simp; omega
-    simp only [hmax, hl1, hl2, finish_spec]
-    have e1 : (out ++ (x.numer ++ s.denom)).take out.length = out := by simp
-    have e2 : ((out ++ (x.numer ++ s.denom)).take (out.length + x.numer.length)).drop out.length = x.numer := by
-      rw [← List.append_assoc, ← List.length_append, List.take_left, List.drop_left]
-    have e3 : (out ++ (x.numer ++ s.denom)).drop (out.length + x.numer.length) = s.denom := by
-      rw [← List.append_assoc, ← List.length_append, List.drop_left]
-    simp only [e1, e2, e3]
-    by_cases hd : s.drank > 0 <;> simp [hd, hxne, hne]
-
 example : mulByScalar ⟨.qube, .vector, .float, [2], [3], [], none⟩ ⟨.qube, .scalar, .int, [3, 1], [], [], none⟩ false
     = .ok ⟨.vector, .float, [3, 2], [3], [], .ew false 2 0 2 1⟩ := rfl
 
@@ -289,68 +220,6 @@ theorem divByScalar_kind (isTrue : Bool) (x s : Desc) (r : Res) (h : divByScalar
   · split at h
     · cases h
     · cases h; cases isTrue <;> simp
-
-/-- **shape_rule / reject_iff for `_div_by_scalar`, `_floordiv_by_scalar`, `_mod_by_scalar`** (divisor S a scalar
-    without denominator, X any class): ValueError iff the LEADING shapes do not broadcast; otherwise the leading shape
-    is their NumPy broadcast and the item shape is X's. -/
--- FULL: the same equality without `hne : s.shape ≠ []` and `hxr : x.rank ≠ 0` (reshape-skip branches).
-theorem divByScalar_rule_partial (isTrue : Bool) (x s : Desc) (hs : s.numer = []) (hsd : s.denom = []) (hne : s.shape ≠ [])
-    (hxr : x.rank ≠ 0) :
-    divByScalar isTrue x s =
-      match bcast x.shape s.shape with
-      | none => .error .valueError
-      | some out =>
-        if unitsPresent x.units s.units && !x.cls.unitsOk then .error .typeError
-        else .ok { cls := x.cls, kind := suitableDtype x.cls (if isTrue then .float else promote x.kind s.kind),
-                   lead := out, numer := x.numer, denom := x.denom, plan := .ew false 0 0 s.shape.length x.rank } := by
-  have hsf : s.full = s.shape := by simp [Desc.full, hs, hsd]
-  have hxf : x.full = x.shape ++ (x.numer ++ x.denom) := by simp [Desc.full]
-  have hS : insOnes s.full s.shape.length (if s.full ≠ [] ∧ x.rank ≠ 0 then x.rank else 0)
-      = s.shape ++ List.replicate (x.numer ++ x.denom).length 1 := by
-    rw [hsf, if_pos ⟨hne, hxr⟩, insOnes_end]; simp [Desc.rank]
-  have hb := bcast_append x.shape s.shape (x.numer ++ x.denom) (List.replicate (x.numer ++ x.denom).length 1) (by simp)
-  rw [bcast_ones_right] at hb
-  unfold divByScalar
-  simp only [decide_eq_true_eq, Bool.and_eq_true, bne_iff_ne, ne_eq, Bool.decide_and] at *
-  simp only [hS, hxf, hb]
-  cases h : bcast x.shape s.shape with
-  | none => rfl
-  | some out =>
-    have hl : (out ++ (x.numer ++ x.denom)).length - x.rank = out.length := by simp [Desc.rank]
-    simp only [hl, finish_spec, List.take_left']
-    simp [hsf, hne, hxr]
-
-/-- **shape_rule / class_rule / reject_iff for `Qube.__add__` / `__sub__` on two polymath objects** that pass the
-    units / numer / denom checks: ValueError iff the LEADING shapes do not broadcast (the code broadcasts the FULL
-    shapes); the result has the left operand's class and item shape and the NumPy broadcast of the leading shapes. -/
--- FULL: additionally the raw-operand conversions (`asThisType`) and the failing checks, as one `reject_iff` over
--- every source kind: addSub a b = error e ↔ ¬ compatible a b.
-theorem addSub_rule_partial (a b : Desc) (ha : a.isQ = true) (hb : b.isQ = true) (hnum : ¬ (a.rank == 0 && b.isNum) = true)
-    (hu : unitsCanMatch a.units b.units = true) (hn : a.numer = b.numer) (hd : a.denom = b.denom) :
-    addSub a b =
-      match bcast a.shape b.shape with
-      | none => .error .valueError
-      | some out =>
-        if unitsPresent a.units b.units && !a.cls.unitsOk then .error .typeError
-        else .ok { cls := a.cls, kind := suitableDtype a.cls (promote a.kind b.kind), lead := out,
-                   numer := a.numer, denom := a.denom, plan := .ew false 0 0 0 0 } := by
-  have hbf : b.full = b.shape ++ (a.numer ++ a.denom) := by simp [Desc.full, hn, hd]
-  have haf : a.full = a.shape ++ (a.numer ++ a.denom) := by simp [Desc.full]
-  have hbc := bcast_append a.shape b.shape (a.numer ++ a.denom) (a.numer ++ a.denom) rfl
-  rw [bcast_self] at hbc
-  have hu' : (!unitsCanMatch a.units b.units) = false := by simp [hu]
-  have hnum' : (a.rank == 0 && b.isNum) = false := by
-    cases h : (a.rank == 0 && b.isNum) <;> simp_all
-  have hnn : (a.numer != b.numer) = false := by simp [hn]
-  have hdd : (a.denom != b.denom) = false := by simp [hd]
-  unfold addSub
-  simp only [hnum', hb, hu', hnn, hdd, haf, hbf, hbc, Bool.false_eq_true, if_false, if_true, pure, Except.pure,
-    bind, Except.bind]
-  cases h : bcast a.shape b.shape with
-  | none => rfl
-  | some out =>
-    have hl : (out ++ (a.numer ++ a.denom)).length - a.rank = out.length := by simp [Desc.rank]
-    simp only [hl, finish_spec, List.take_left']
 
 example : addSub ⟨.qube, .vector, .int, [3], [3], [], none⟩ ⟨.qube, .vector3, .float, [2, 1], [3], [], none⟩
     = .ok ⟨.vector, .float, [2, 3], [3], [], .ew false 0 0 0 0⟩ := rfl
@@ -409,5 +278,254 @@ theorem reflected_mul_eq_direct (self arg sc : Desc) (hraw : arg.isQ = false) (h
     simp [hm, bind, Except.bind, pure, Except.pure] at h1
     simp [hn, hs0, hm, bind, Except.bind, pure, Except.pure] at h2
     rw [← h1, ← h2]
+
+/-- `raw - q` (`__rsub__`) IS the direct form: the raw operand converted to `q`'s class by `as_this_type`, minus `q` -/
+theorem reflected_sub_eq_direct (q r c : Desc) (h : asThisType q r = .ok c) :
+    reflected .sub q r = direct .sub c q false := by
+  simp [reflected, direct, h, bind, Except.bind]
+
+/-- `raw / q`, `raw // q`, `raw % q` for an array-like (or, for `//` and `%`, any) raw operand: the reflected method
+    accepts exactly when the direct form `Scalar(raw) op q` accepts, with the identical result (class, kind, shapes, plan) -/
+theorem reflected_divlike_eq_direct (op : OpSym) (hop : op = .div ∨ op = .floordiv ∨ op = .mod) (q r : Desc)
+    (hq : q.isQ = true) (hw : WF q) (hr : r.isQ = false) (hnum : ¬ (op = .div ∧ r.isNum = true)) (x : Res) :
+    reflected op q r = some (.ok x) ↔ direct op (readScalar r) q false = some (.ok x) := by
+  have hqn : q.isNum = false := isNum_of_isQ hq
+  obtain ⟨f1, f2, f3, f4, f5, f6⟩ := readScalar_raw_fields r hr
+  have hAm : isMatrix (readScalar r) = false := by simp [isMatrix, f4]
+  rcases hop with rfl | rfl | rfl
+  · have hn : r.isNum = false := by
+      cases h : r.isNum with
+      | false => rfl
+      | true => exact absurd ⟨rfl, h⟩ hnum
+    simp only [reflected, qrdiv, direct, bne_self_eq_false, Bool.false_and, Bool.false_eq_true, if_false,
+      beq_self_eq_true, Bool.true_and, hn, asScalar_raw r hr, if_true]
+    cases qdiv (readScalar r) q false with
+    | none => simp
+    | some y => cases y <;> simp [pure, Except.pure, throw, throwThe, MonadExceptOf.throw]
+  · simp only [reflected, qrdiv, direct]
+    by_cases hm : isMatrix q = true
+    · -- Matrix overrides: both forms raise
+      have hqn0 := isMatrix_numer q hw hq hm
+      have hnb : q.cls ≠ .boolean := by
+        intro h; simp [isMatrix, h] at hm
+      have hnr : (q.nrankV == 0) = false := by
+        cases h : (q.nrankV == 0) with
+        | false => rfl
+        | true => exact absurd ((nrankV_eq q).1 h) hqn0
+      simp [hm, qfloorMod, hAm, hqn, asScalar_qube q hq hnb, hnr, bind, Except.bind, throw, throwThe,
+        MonadExceptOf.throw, pure, Except.pure]
+      split <;> simp
+    · have hm' : isMatrix q = false := by simpa using hm
+      simp only [hm', Bool.and_false, Bool.false_eq_true, if_false, asScalar_raw r hr, Bool.false_and]
+      have : (OpSym.floordiv == OpSym.div) = false := by decide
+      simp only [this, Bool.false_eq_true, if_false]
+      have e0 : (OpSym.floordiv == OpSym.mod) = false := by decide
+      rw [e0]
+      cases hqf : qfloorMod false (readScalar r) q false with
+      | ok y => simp [pure, Except.pure]
+      | error e => simp [throw, throwThe, MonadExceptOf.throw]
+  · simp only [reflected, qrdiv, direct]
+    by_cases hm : isMatrix q = true
+    · have hqn0 := isMatrix_numer q hw hq hm
+      have hnb : q.cls ≠ .boolean := by
+        intro h; simp [isMatrix, h] at hm
+      have hnr : (q.nrankV == 0) = false := by
+        cases h : (q.nrankV == 0) with
+        | false => rfl
+        | true => exact absurd ((nrankV_eq q).1 h) hqn0
+      simp [hm, qfloorMod, hAm, hqn, asScalar_qube q hq hnb, hnr, bind, Except.bind, throw, throwThe,
+        MonadExceptOf.throw, pure, Except.pure]
+      split <;> simp
+    · have hm' : isMatrix q = false := by simpa using hm
+      simp only [hm', Bool.and_false, Bool.false_eq_true, if_false, asScalar_raw r hr, Bool.false_and]
+      have : (OpSym.mod == OpSym.div) = false := by decide
+      simp only [this, Bool.false_eq_true, if_false]
+      have e0 : (OpSym.mod == OpSym.mod) = true := by decide
+      rw [e0]
+      cases hqf : qfloorMod true (readScalar r) q false with
+      | ok y => simp [pure, Except.pure]
+      | error e => simp [throw, throwThe, MonadExceptOf.throw]
+
+/-- `number / Scalar` (`__rtruediv__` = `self.reciprocal() * number`) against the direct form `Scalar(number) / Scalar`:
+    whenever both are accepted the class, kind and shapes coincide -/
+theorem reflected_div_number (q n : Desc) (hq : q.isQ = true) (hs : q.cls = .scalar) (hn : n.isNum = true)
+    (hnq : n.isQ = false) (r r' : Res) (h1 : reflected .div q n = some (.ok r))
+    (h2 : direct .div (readScalar n) q false = some (.ok r')) (hsh : n.shape = []) :
+    r.shp = r'.shp ∧ r.kind = r'.kind := by
+  have hqn : q.isNum = false := isNum_of_isQ hq
+  have hqb : q.cls ≠ .boolean := by rw [hs]; decide
+  obtain ⟨f1, f2, f3, f4, f5, f6⟩ := readScalar_raw_fields n hnq
+  simp only [reflected, qrdiv, bne_self_eq_false, Bool.false_and, Bool.false_eq_true, if_false, beq_self_eq_true,
+    hn, Bool.and_self, if_true, hs] at h1
+  by_cases hr0 : q.rank = 0
+  · simp only [hr0, bne_self_eq_false, Bool.false_eq_true, if_false, pure, Except.pure, Option.some.injEq,
+      Except.ok.injEq] at h1
+    have h0 : q.numer.length + q.denom.length = 0 := hr0
+    have hqn0 : q.numer = [] := List.eq_nil_of_length_eq_zero (by omega)
+    have hqd0 : q.denom = [] := List.eq_nil_of_length_eq_zero (by omega)
+    simp only [direct, qdiv, hqn, Bool.false_eq_true, if_false, asScalar_qube q hq hqb] at h2
+    have hd : ¬ q.drank > 0 := by simp [Desc.drank, hqd0]
+    have hnr : (q.nrankV == 0) = true := (nrankV_eq q).2 hqn0
+    simp only [hd, if_false, hnr, if_true] at h2
+    rw [divByScalar_rule true (readScalar n) q hqn0 hqd0, f3, hsh, bcast_nil_left] at h2
+    simp only [f4, Cls.unitsOk, Bool.not_true, Bool.and_false, Bool.false_eq_true, if_false, pure, Except.pure,
+      Option.some.injEq, Except.ok.injEq] at h2
+    subst h1 h2
+    simp [Res.shp, f1, f2, suitableDtype, Cls.floatsOk]
+  · have : (q.rank != 0) = true := by simp [hr0]
+    simp [this, throw, throwThe, MonadExceptOf.throw] at h1
+
+/-! ### the whole operator table: dispatch = specification -/
+
+/-- **dispatch_spec.** For every operator, every ordered pair of well-formed operands (polymath object of any class,
+    Python number, ndarray, MaskedArray, nested list) and either form (direct / reflected, Boolean overrides included),
+    the code-shaped `dispatch` — Python's method choice, conversions, the validations in the source's order, NumPy
+    broadcasting of the ALIGNED FULL shapes, the constructor — agrees with the declarative `spec` (leading shapes
+    only): outside the view ↔ `none`; rejected ↔ `some none`; accepted with class / leading shape / item shape `s`
+    ↔ `some (some s)`. -/
+theorem dispatch_spec (op : OpSym) (a b : Desc) (zn : Bool) (hwa : WF a) (hwb : WF b) :
+    (dispatch op a b zn).map outcome = spec op a b := by
+  unfold dispatch spec
+  by_cases ha : a.isQ = true
+  · simp only [ha, if_true, Bool.true_or]
+    by_cases hab : a.cls = .boolean
+    · -- Boolean.__op__: self.as_int() op arg
+      have hna : normB a = asInt a := normB_bool a ha hab
+      have hai : (asInt a).isQ = true := by rw [(asInt_fields a).1]; exact ha
+      have hac : (asInt a).cls ≠ .matrix3 := by rw [(asInt_fields a).2.2.2.1]; decide
+      simp only [hab, beq_self_eq_true, if_true, hna]
+      show (direct op (asInt a) (normB b) zn).map outcome = _
+      rw [direct_spec op (asInt a) (normB b) zn hai (WF_asInt a hwa ha hab) (WF_normB b hwb) (normB_nonbool b)]
+      exact coreSpec_b0 op _ _ _ _ (Or.inl hac)
+    · have hab' : (a.cls == Cls.boolean) = false := by simp [hab]
+      have hna : normB a = a := normB_other a (fun h => hab h.2)
+      simp only [hab', Bool.false_eq_true, if_false, hna]
+      by_cases hbb : b.isQ = true ∧ b.cls = .boolean
+      · have hnb : normB b = asInt b := normB_bool b hbb.1 hbb.2
+        rw [hnb]
+        by_cases hs : a.cls = .scalar
+        · -- Boolean overrides every reflected method and is a subclass of Scalar: b.__rop__(a) runs first
+          have hm3 : a.cls ≠ .matrix3 := by rw [hs]; decide
+          simp only [hbb.1, hbb.2, hs, beq_self_eq_true, Bool.and_self, if_true]
+          have hnbq : (asInt b).isQ = true → (asInt b).cls ≠ .boolean := by
+            intro _; rw [(asInt_fields b).2.2.2.1]; decide
+          rw [direct_spec op a (asInt b) zn ha hwa (WF_asInt b hwb hbb.1 hbb.2) hnbq]
+          exact coreSpec_b0 op _ _ _ _ (Or.inl hm3)
+        · have : (a.cls == Cls.scalar) = false := by simp [hs]
+          simp only [this, Bool.and_false, Bool.false_eq_true, if_false]
+          exact direct_bool op a b zn ha hwa hwb hab hs hbb.1 hbb.2
+      · have hnb : normB b = b := normB_other b hbb
+        have hcond : (b.isQ && b.cls == Cls.boolean && a.cls == Cls.scalar) = false := by
+          by_cases hq : b.isQ = true
+          · have : b.cls ≠ .boolean := fun h => hbb ⟨hq, h⟩
+            simp [this]
+          · simp [hq]
+        simp only [hcond, Bool.false_eq_true, if_false, hnb]
+        exact direct_spec op a b zn ha hwa hwb (fun hq hb => hbb ⟨hq, hb⟩)
+  · have ha' : a.isQ = false := by simpa using ha
+    have hna : normB a = a := normB_other a (fun h => ha h.1)
+    simp only [ha', Bool.false_eq_true, if_false, Bool.false_or, hna]
+    by_cases hb : b.isQ = true
+    · simp only [hb, if_true]
+      by_cases hbb : b.cls = .boolean
+      · have hnb : normB b = asInt b := normB_bool b hb hbb
+        have hbi : (asInt b).isQ = true := by rw [(asInt_fields b).1]; exact hb
+        have hbc : (asInt b).cls ≠ .boolean := by rw [(asInt_fields b).2.2.2.1]; decide
+        have hwi := WF_asInt b hwb hb hbb
+        simp only [hbb, beq_self_eq_true, if_true, hnb]
+        cases op with
+        | add => exact reflected_spec .add (asInt b) a hbi hwi hbc ha' hwa b
+        | sub => exact reflected_spec .sub (asInt b) a hbi hwi hbc ha' hwa b
+        | mul => exact reflected_spec .mul (asInt b) a hbi hwi hbc ha' hwa b
+        | div =>
+          -- Boolean.__rtruediv__: Scalar(arg) / self.as_int()
+          simp only [asScalar_raw a ha']
+          obtain ⟨f1, f2, f3, f4, f5, f6⟩ := readScalar_raw_fields a ha'
+          rw [direct_spec .div (readScalar a) (asInt b) false f6 (WF_readScalar a ha') hwi (fun _ => hbc)]
+          obtain ⟨g1, g2, g3, g4, g5, g6, g7, g8⟩ := asInt_fields b
+          have hbn : (asInt b).numer = [] := by rw [g6]; exact numer_nil_of_boolean b hwb hb hbb
+          have hbd : (asInt b).denom = [] := by rw [g7]; exact denom_nil_of_boolean b hwb hb hbb
+          have hbnum : (asInt b).isNum = false := isNum_of_isQ hbi
+          simp only [coreSpec, divCore, hbnum, isNum_of_isQ f6, Bool.false_eq_true, if_false, readScalar_idem,
+            readScalar_qube _ hbi, hbd, hbn, ne_eq, not_true_eq_false, if_true]
+          by_cases hn : a.isNum = true
+          · have hsh : a.shape = [] := hwa.num hn
+            simp only [hn, if_true, g4, beq_self_eq_true, Desc.rank, hbn, hbd, List.length_nil, Nat.add_zero,
+              not_true_eq_false, if_false, divideSpec, ewSpec, f4, f3, hsh, bcast_nil_left, f1, f2, unitsFit,
+              Cls.unitsOk, Bool.or_true]
+          · have hn' : a.isNum = false := by simpa using hn
+            simp only [hn', Bool.false_eq_true, if_false]
+        | floordiv =>
+          simp only [asScalar_raw a ha']
+          obtain ⟨f1, f2, f3, f4, f5, f6⟩ := readScalar_raw_fields a ha'
+          rw [direct_spec .floordiv (readScalar a) (asInt b) false f6 (WF_readScalar a ha') hwi (fun _ => hbc)]
+          have : isMatrix (readScalar a) = false := by simp [isMatrix, f4]
+          simp only [coreSpec, floorModCore, ha', f6, this, readScalar_idem, Bool.and_false, Bool.false_and,
+            Bool.false_eq_true, if_false]
+        | mod =>
+          simp only [asScalar_raw a ha']
+          obtain ⟨f1, f2, f3, f4, f5, f6⟩ := readScalar_raw_fields a ha'
+          rw [direct_spec .mod (readScalar a) (asInt b) false f6 (WF_readScalar a ha') hwi (fun _ => hbc)]
+          have : isMatrix (readScalar a) = false := by simp [isMatrix, f4]
+          have hbnum : (asInt b).isNum = false := isNum_of_isQ hbi
+          simp only [coreSpec, floorModCore, ha', f6, this, readScalar_idem, Bool.and_false, Bool.false_and, hbnum,
+            Bool.false_eq_true, if_false, f3, f4, f1, f2]
+      · have hnb : normB b = b := normB_other b (fun h => hbb h.2)
+        have : (b.cls == Cls.boolean) = false := by simp [hbb]
+        simp only [this, Bool.false_eq_true, if_false, hnb]
+        exact reflected_spec op b a hb hwb hbb ha' hwa b
+    · simp [hb]
+
+/-- the property's notion of compatibility, read off the declarative specification -/
+def Compatible (op : OpSym) (a b : Desc) : Prop := ∃ s, spec op a b = some (some s)
+
+/-- **reject_iff (dispatch-wide).** Within the view, `a op b` raises iff the operands are NOT compatible, and what it
+    raises is a ValueError or a TypeError; when compatible, the result has exactly the class, leading shape (NumPy
+    broadcast of the LEADING shapes) and item shape the specification names. -/
+theorem reject_iff (op : OpSym) (a b : Desc) (zn : Bool) (hwa : WF a) (hwb : WF b) (x : M Res)
+    (h : dispatch op a b zn = some x) :
+    ((∃ e, x = .error e ∧ (e = .valueError ∨ e = .typeError)) ↔ ¬ Compatible op a b) ∧
+    (∀ r, x = .ok r → spec op a b = some (some r.shp)) := by
+  have hs := dispatch_spec op a b zn hwa hwb
+  rw [h] at hs
+  simp only [Option.map_some] at hs
+  constructor
+  · constructor
+    · rintro ⟨e, rfl, -⟩ ⟨s, hc⟩
+      rw [← hs] at hc
+      simp [outcome] at hc
+    · intro hnc
+      cases x with
+      | error e => exact ⟨e, rfl, by cases e <;> simp⟩
+      | ok r => exact absurd ⟨r.shp, by rw [← hs]; rfl⟩ hnc
+  · intro r hr
+    rw [← hs, hr]; rfl
+
+/-- outside the view exactly when the specification says so -/
+theorem dispatch_none_iff (op : OpSym) (a b : Desc) (zn : Bool) (hwa : WF a) (hwb : WF b) :
+    dispatch op a b zn = none ↔ spec op a b = none := by
+  have hs := dispatch_spec op a b zn hwa hwb
+  cases hd : dispatch op a b zn with
+  | none => rw [hd] at hs; simp at hs; simp [← hs]
+  | some x => rw [hd] at hs; simp at hs; simp [← hs]
+
+/-! non-vacuity: well-formed operands on an accepting, a rejecting and a reflected path -/
+
+example : WF ⟨.qube, .vector, .float, [2], [3], [], none⟩ :=
+  ⟨by simp [Desc.isQ], by simp [Desc.isNum], fun _ => rfl, by simp [Cls.fixedNumer], by simp, fun _ _ => rfl⟩
+example : WF ⟨.nd, .qube, .int, [3, 1], [], [], none⟩ :=
+  ⟨fun _ => ⟨rfl, rfl, rfl⟩, by simp [Desc.isNum], by simp [Desc.isQ], by simp [Desc.isQ], by simp, by simp⟩
+example : spec .mul ⟨.qube, .vector, .float, [2], [3], [], none⟩ ⟨.nd, .qube, .int, [3, 1], [], [], none⟩
+    = some (some ⟨.vector, [3, 2], [3], []⟩) := by decide
+example : spec .mul ⟨.nd, .qube, .int, [3, 1], [], [], none⟩ ⟨.qube, .vector, .float, [2], [3], [], none⟩
+    = some (some ⟨.vector, [3, 2], [3], []⟩) := by decide
+example : spec .add ⟨.qube, .vector, .float, [2], [3], [], none⟩ ⟨.qube, .vector, .float, [3], [3], [], none⟩
+    = some none := by decide
+example : spec .add ⟨.qube, .vector, .float, [3], [3], [], none⟩ ⟨.qube, .scalar, .float, [3], [], [], none⟩
+    = some none := by decide
+example : spec .sub ⟨.list, .qube, .int, [2, 3], [], [], none⟩ ⟨.qube, .vector, .float, [2], [3], [], none⟩
+    = some (some ⟨.vector, [2], [3], []⟩) := by decide
+example : spec .div ⟨.num, .qube, .int, [], [], [], none⟩ ⟨.qube, .matrix, .float, [], [2, 2], [], none⟩ = none := by
+  decide
 
 end PMV.Dispatch
